@@ -201,6 +201,18 @@ Proof.
   destruct limit as [n|]; cbn [opt_take]; [apply firstn_NoDup; exact H|exact H].
 Qed.
 
+(** hence no more sequences than a-rows *)
+Theorem matched_count_le_a_rows : forall lk wh ta tb limit la lb,
+  NoDup la -> (length (matcher lk wh ta tb limit la lb) <= length la)%nat.
+Proof.
+  intros lk wh ta tb limit la lb Hn.
+  assert (E : length (map fst (matcher lk wh ta tb limit la lb)) = length (matcher lk wh ta tb limit la lb)) by apply map_length.
+  rewrite <- E. clear E.
+  apply NoDup_incl_length; [apply matched_once; exact Hn|].
+  intros a Ha. apply in_map_iff in Ha. destruct Ha as [[a' b] [E Hin]]. cbn [fst] in E. subst a'.
+  apply pairs_sound in Hin. destruct Hin as [Hin _]. exact Hin.
+Qed.
+
 (** the per-group statement, with the order: the a-components of a group's pairs are the group's
     a-rows in their (time) order with some rows deleted *)
 Theorem group_matches_follow_a_rows : forall lk w g, subseq (map fst (match_group lk w g)) (g_a g).
